@@ -288,6 +288,32 @@ func runCheck(prop, tier, root string, seed int) int {
 			fmt.Printf("NOTE property=%s known finding %s (%s) no longer corresponds to any obligation\n", prop, name, f.What)
 		}
 	}
+	// bounded stand-ins (string-heavy clauses): run on the real code, labelled bounded, never counted as proved
+	standins := runStandins(prop, root, seed)
+	for _, sr := range standins {
+		name := "standin:" + sr.Name
+		if sr.Status == "ok" {
+			fmt.Printf("BOUNDED property=%s %s cases=%s bound=%s\n", prop, name, sr.Cases, sr.Bound)
+			continue
+		}
+		if kfd, isKnown := known[name]; isKnown {
+			knownSeen[name] = true
+			nKnown++
+			fmt.Printf("KNOWN-FINDING: property=%s %s — %s\n", prop, name, kfd.What)
+			continue
+		}
+		nViol++
+		violNames = append(violNames, name)
+		rpath := filepath.Join(replayDir, shortFile(name)+".json")
+		rb, _ := json.MarshalIndent(map[string]interface{}{"property": prop, "obligation": name, "bounded_standin": sr.File, "failures": sr.Fails, "confirmed_on_real_code": true,
+			"note": "bounded stand-in failed on the real code; rerun: place the file as an in-package test (see its STANDIN-DIR line) and go test -run TestStandin"}, "", " ")
+		os.WriteFile(rpath, rb, 0o644)
+		w := ""
+		if len(sr.Fails) > 0 {
+			w = sr.Fails[0]
+		}
+		fmt.Printf("VIOLATION property=%s replay=%s obligation=%s (bounded stand-in fails on the real code: %s)\n", prop, rpath, name, firstLines(w, 2))
+	}
 	sort.Strings(fns)
 	sort.Strings(inlined)
 	inlined = dedup(inlined)
